@@ -25,15 +25,19 @@ GO = "go1.26.8"
 GOENV = dict(os.environ, GOFLAGS="-mod=mod", GOPROXY="off", GOSUMDB="off", GOTOOLCHAIN="local",
              CGO_ENABLED="0", VERIF_ROOT=VERIF)
 ALLOWED_AXIOMS = {"propext", "Classical.choice", "Quot.sound"}
-FORBIDDEN = re.compile(r"\bsorry\b|\badmit\b|^axiom |native_decide|bv_decide|implemented_by|\bunsafe |maxHeartbeats 0")
+FORBIDDEN = re.compile(r"\bsorry\b|\badmit\b|^\s*(private\s+|protected\s+|noncomputable\s+)*axiom\s|native_decide|bv_decide|implemented_by|\bunsafe |maxHeartbeats 0\b")
 
 sys.path.insert(0, os.path.join(VERIF, "tools"))
 from props import PROPS, TRUSTED_COMMON
 
 
 def sh(cmd, cwd=None, env=None, timeout=None, stdin=None):
-    p = subprocess.run(cmd, cwd=cwd, env=env, timeout=timeout, input=stdin,
-                       stdout=subprocess.PIPE, stderr=subprocess.STDOUT, text=True)
+    try:
+        p = subprocess.run(cmd, cwd=cwd, env=env, timeout=timeout, input=stdin,
+                           stdout=subprocess.PIPE, stderr=subprocess.STDOUT, text=True)
+    except subprocess.TimeoutExpired as e:
+        out = e.stdout.decode(errors="replace") if isinstance(e.stdout, bytes) else (e.stdout or "")
+        return 124, out + f"\n[timed out after {timeout} s: {cmd if isinstance(cmd, str) else ' '.join(map(str, cmd[:4]))}]"
     return p.returncode, p.stdout
 
 
@@ -92,12 +96,18 @@ def repo_compiles():
     return rc == 0
 
 
-def regenerate_facts():
+# facts.json of a self-test against a seeded change (VERIF_REPO) is kept apart from the one
+# describing /repo; the harness reads the path from VERIF_FACTS
+FACTS_JSON = os.path.join(WORK, "facts.json" if REPO == "/repo" else "facts-seed-%d.json" % os.getpid())
+GOENV["VERIF_FACTS"] = FACTS_JSON
+
+
+def regenerate_facts(repo=None, facts_json=None):
     """Run the extractor on /repo; replace Extracted.lean only when it changed."""
     gen = os.path.join(LEAN, "Dhcp/Gen/Extracted.lean")
     tmp = os.path.join(WORK, "Extracted.lean.tmp")
-    rc, out = sh([os.path.join(BIN, "extract"), "-repo", REPO, "-lean", tmp,
-                  "-json", os.path.join(WORK, "facts.json")], env=GOENV, timeout=600)
+    rc, out = sh([os.path.join(BIN, "extract"), "-repo", repo or REPO, "-lean", tmp,
+                  "-json", facts_json or FACTS_JSON], env=GOENV, timeout=600)
     if rc != 0:
         return "extractor failed:\n" + out
     new = open(tmp).read()
@@ -105,6 +115,24 @@ def regenerate_facts():
     if new != old:
         shutil.move(tmp, gen)
     return None
+
+
+def project_closure(mods):
+    """mods plus every module of this package they import, transitively."""
+    seen, todo = [], list(mods)
+    while todo:
+        m = todo.pop()
+        if m in seen:
+            continue
+        path = os.path.join(LEAN, m.replace(".", "/") + ".lean")
+        if not os.path.exists(path):
+            continue
+        seen.append(m)
+        for line in open(path):
+            mm = re.match(r"\s*import\s+((?:Dhcp|DhcpProofs)[\w.]*)", line)
+            if mm:
+                todo.append(mm.group(1))
+    return seen
 
 
 def lake_build(targets):
@@ -297,7 +325,9 @@ def check(pid, tier, replay=None):
                                         built_mods, workdir) if built_mods else ({}, "")
             forb = grep_forbidden(cfg["props"])
             if thorough and built_mods:
-                rc2, lc = sh(["lake", "env", "leanchecker"] + built_mods, cwd=LEAN, timeout=3000)
+                # replay the property/fact modules AND every project module they import
+                # (the proofs live in DhcpProofs/Lemmas/*, the definitions in Dhcp/*)
+                rc2, lc = sh(["lake", "env", "leanchecker"] + project_closure(built_mods), cwd=LEAN, timeout=3000)
                 if rc2 != 0:
                     failed.append("leanchecker rejected the compiled proofs")
                     notes.append(lc[-2000:])
@@ -319,6 +349,11 @@ def check(pid, tier, replay=None):
                 shutil.copyfile(os.path.join(BIN, "harness"), hbin); os.chmod(hbin, 0o755)
             if os.path.exists(DRIVER):
                 shutil.copyfile(DRIVER, dbin); os.chmod(dbin, 0o755)
+            if REPO != "/repo":
+                # self-test against a seeded change: everything needed from the regenerated
+                # facts is built and copied by now; put the tracked Extracted.lean back to
+                # what /repo itself says, so that the tree never carries a mutant's facts
+                regenerate_facts(repo="/repo", facts_json=os.path.join(WORK, "facts-restore.json"))
         if no_harness:
             cfg = dict(cfg, streams=[], oracles=[], race_oracles=[])
 
@@ -346,7 +381,7 @@ def check(pid, tier, replay=None):
         if failed and cfg.get("fact_evidence"):
             # what the extractor saw (e.g. the def chain of every VIEW): goes into the replay file
             try:
-                ev = json.load(open(os.path.join(WORK, "facts.json")))
+                ev = json.load(open(FACTS_JSON))
                 for k in cfg["fact_evidence"].split("."):
                     ev = ev[k]
                 notes += [cfg["fact_evidence"] + ": " + json.dumps(e) for e in (ev or [])[:20]]
@@ -526,9 +561,17 @@ def main():
         print(__doc__); return 2
     if a[0] == "setup":
         return setup()
+    if a[0] in ("check", "replay"):
+        if len(a) < 2 or a[1] not in PROPS:
+            print("unknown property %r; registered: %s" % (a[1] if len(a) > 1 else None, " ".join(sorted(PROPS)))); return 2
     if a[0] == "check":
-        return check(a[1], a[2] if len(a) > 2 else "quick")
+        tier = a[2] if len(a) > 2 else "quick"
+        if tier not in ("quick", "thorough"):
+            print("tier must be quick or thorough"); return 2
+        return check(a[1], tier)
     if a[0] == "replay":
+        if len(a) < 3 or not os.path.exists(a[2]):
+            print("replay file not found"); return 2
         return check(a[1], "quick", replay=a[2])
     print(__doc__); return 2
 
